@@ -232,7 +232,8 @@ def shrink_ts(b):
     return dict(b, ops=ops)
 
 
-def constructor_stream(run, tier, rng):
+def constructor_stream(run, tier, rng, pred=None):
+    pred = pred or ts_coherent
     """from_dict / from_adjacency_matrix / from_causal_graph / from_adjacency_matrices naming lagged nodes."""
     import numpy
     from cai_causal_graph import CausalGraph
@@ -270,7 +271,7 @@ def constructor_stream(run, tier, rng):
             except Exception:  # noqa: BLE001  (refusals are fine: against-time edges, cycles)
                 continue
             built += 1
-            why = ts_coherent(g)
+            why = pred(g)
             if why:
                 bad.append(dict(constructor=how, names=names, edges=[(e.source.identifier, e.destination.identifier, str(e.get_edge_type())) for e in cg.get_edges()], why=why))
     run.coverage['constructor_graphs_checked'] = built
